@@ -168,13 +168,13 @@ def main(argv):
     def other_version(v, k=1):
         return 5 + ((v - 5 + k) % 6)
 
-    def compile_twice(prog, v, descr):
+    def compile_twice(prog, v, descr, assemble=False):
         """Compile the SAME expression object at v and then again at another version (an expression tree may be
         compiled any number of times: two versions, approval + clear, with_sourcemap=True ...). Returns
         [(compile_no, version, teal)]; a compilation that raises is recorded as a failing input."""
         out = []
         for no, vv in ((1, v), (2, other_version(v, 1 + (v % 4)))):
-            r = call_real(pt.compileTeal, prog, pt.Mode.Application, version=vv)
+            r = call_real(pt.compileTeal, prog, pt.Mode.Application, version=vv, assembleConstants=assemble)
             if r[0] != "ok":
                 d = dict(descr)
                 d.update({"kind": "compile-error", "version": vv, "compile_no": no, "first_version": v, "expected": "TEAL",
@@ -216,6 +216,17 @@ def main(argv):
                              {"kind": "crash", "nn": nn, "nd": nd, "version": v, "exception": r[1:]})
             if r_ops != m_ops:
                 text_mismatch.append({"nn": nn, "nd": nd, "version": v, "ns": ns, "ds": ds, "real": r_ops, "model": m_ops})
+        # repeated literals: equal adjacent constants (the model emits one `int x` per factor, whatever its neighbours)
+        pool = [ck.rng.choice([1, 2, 3, 5, 1000, (1 << 32) - 1, U64 - 1]) for _ in range(2)]
+        ns_r = [ck.rng.choice(pool) for _ in range(nn)]
+        ds_r = [ck.rng.choice(pool) for _ in range(nd)]
+        m_ops_r = [s for s in model.ask((S("wide-ops"), ns_r, ds_r))[1:]]
+        v_r = 5 + ((nn + nd) % 6)
+        r = call_real(real_ops, [pt.Int(x) for x in ns_r], [pt.Int(x) for x in ds_r], v_r)
+        r_ops = r[1] if r[0] == "ok" else ["<%s>" % r[1]]
+        ck.count(("text-repeated", nn, nd, v_r, tuple(ns_r), tuple(ds_r)))
+        if r_ops != m_ops_r:
+            text_mismatch.append({"nn": nn, "nd": nd, "version": v_r, "ns": ns_r, "ds": ds_r, "repeated_literals": True, "real": r_ops, "model": m_ops_r})
         # composite factors: model ops with each `int k` replaced by the factor's own code
         comp_n = [(pt.Int(x) + pt.Int(1), ["int %d" % x, "int 1", "+"]) for x in ns]
         comp_d = [(pt.Btoi(pt.Bytes("base16", "0x01")) , ["byte 0x01", "btoi"]) for x in ds]
@@ -404,16 +415,96 @@ def main(argv):
                                              "observed_logs": [l.hex() for l in logs] if logs else logs, "teal": teal})
     ck.coverage["shared_object_input_distribution"] = shist
 
+    # ---------------- correspondence 5: LITERAL factors with repetitions, assembleConstants on/off ----------
+    # Factor lists are Int literals drawn from a small pool, so equal values recur: adjacent equal literals at every
+    # position (2nd, 3rd and later, in numerator and denominator, across the numerator/denominator boundary), the same
+    # Int OBJECT used several times, boundary values whose running product's low word differs from the factor.  The
+    # program also uses repeated small constants elsewhere (Assert / Pop of Int 1, 2, 3 ...), and is compiled with
+    # assembleConstants=False and =True (intcblock / intc_N / pushint); the emitted TEAL runs on the AVM vs the oracle.
+    lhist = {"ok": 0, "must_fail": 0, "adjacent_equal_3rd_or_later": 0, "assembled": 0}
+    LIT_SMALL = [1, 2, 3, 5, 7, 11, 100]
+    LIT_LARGE = [128, 1000, 65537, (1 << 32) - 1, (1 << 32) + 1, 1 << 63, U64 - 1, 4294967297 * 3]
+    lit_rounds = 4 if thorough else 1
+    for si, (nn, nd) in enumerate(shapes):
+        if nn + nd > 14:
+            continue
+        for rnd in range(lit_rounds):
+            vs = list(versions) if thorough else [5 + ((si + rnd) % 6), 5 + ((si + rnd + 3) % 6)]
+            for v in vs:
+                pool_n = ck.rng.randrange(1, 4)
+                pool = [ck.rng.choice(LIT_SMALL) for _ in range(pool_n)] + [ck.rng.choice(LIT_LARGE) for _ in range(ck.rng.randrange(1, 3))]
+                if ck.rng.random() < 0.3:
+                    pool = [x for x in pool if x < (1 << 33)] or [3, 1000]
+                ns = [ck.rng.choice(pool) for _ in range(nn)]
+                ds = [ck.rng.choice(pool) for _ in range(nd)]
+                # force an adjacent repetition at a third-or-later position, and one across the boundary
+                if nn >= 3:
+                    j = ck.rng.randrange(2, nn)
+                    ns[j] = ns[j - 1]
+                if nd >= 3:
+                    j = ck.rng.randrange(2, nd)
+                    ds[j] = ds[j - 1]
+                if ck.rng.random() < 0.5:
+                    ds[0] = ns[-1]
+                if ck.rng.random() < 0.25 and nd >= 2:
+                    ds[ck.rng.randrange(nd)] = ck.rng.choice([1, 1, 2, 0])
+                if any(fs[j] == fs[j - 1] for fs in (ns, ds) for j in range(2, len(fs))):
+                    lhist["adjacent_equal_3rd_or_later"] += 1
+                share = ck.rng.random() < 0.5            # one Int object per distinct value, reused
+                objs = {}
+                def lit(x):
+                    if share:
+                        if x not in objs:
+                            objs[x] = pt.Int(x)
+                        return objs[x]
+                    return pt.Int(x)
+                if ck.rng.random() < 0.5:
+                    # dense: five or more repeated small constants that outrank the factor literals (the intcblock keeps
+                    # only the four most frequent small ones; the others become pushint), then repeated large ones
+                    amb = [(1, 5), (2, 5), (3, 4), (5, 4), (7, ck.rng.choice([3, 4])), (11, ck.rng.choice([0, 3])),
+                           (ck.rng.choice(LIT_LARGE), ck.rng.choice([0, 2, 3]))]
+                else:
+                    amb = [(1, 3), (2, ck.rng.randrange(0, 4)), (3, ck.rng.randrange(0, 3)), (5, ck.rng.randrange(0, 3)),
+                           (ck.rng.choice(LIT_SMALL), 2), (ck.rng.choice(LIT_LARGE), ck.rng.randrange(0, 3))]
+                pre = []
+                for (a, m) in amb:
+                    for t in range(m):
+                        pre.append(pt.Assert(pt.Int(a)) if t % 2 == 0 else pt.Pop(pt.Int(a)))
+                ck.rng.shuffle(pre)
+                cut = ck.rng.randrange(0, len(pre) + 1)
+                exp = oracle(ns, ds)
+                for assemble in (False, True):
+                    w = pt.WideRatio([lit(x) for x in ns], [lit(x) for x in ds])
+                    prog = pt.Seq(*(pre[:cut] + [pt.Log(pt.Itob(w))] + pre[cut:] + [pt.Approve()]))
+                    teals = compile_twice(prog, v, {"ns": ns, "ds": ds, "literal": True, "assembleConstants": assemble,
+                                                    "ambient_constants": amb}, assemble=assemble)
+                    for (no, vv, teal) in teals:
+                        if no == 2 and not thorough and (si + rnd) % 3 != 0:
+                            continue
+                        verdict, logs = avm(teal, [])
+                        ck.count(("run-literal", vv, no, assemble, tuple(ns), tuple(ds), tuple(amb), cut, share))
+                        lhist["ok" if exp is not None else "must_fail"] += 1
+                        lhist["assembled"] += 1 if assemble else 0
+                        if not judged(verdict, logs, None if exp is None else [exp]):
+                            sem_fail.append({"kind": "semantic", "literal": True, "assembleConstants": assemble, "shared_int_objects": share,
+                                             "ambient_constants": amb, "version": vv, "compile_no": no, "first_version": v,
+                                             "ns": ns, "ds": ds, "expected": ("fail" if exp is None else exp),
+                                             "observed_verdict": repr(verdict),
+                                             "observed_logs": [l.hex() for l in logs] if logs else logs, "teal": teal})
+    ck.coverage["literal_input_distribution"] = lhist
+
     # ---------------- verdict ----------------
     # report at most 8 failing inputs: silently wrong numbers first (approve with a wrong log), and all
     # families (argument factors / one object at two places / compound factors) represented
     def _rank(f):
         wrong_number = f.get("observed_verdict") == repr(S("approve"))
         return (0 if wrong_number else 1)
-    plain = sorted([f for f in sem_fail if f["kind"] != "semantic-compound" and not f.get("shared_form")], key=_rank)
+    plain = sorted([f for f in sem_fail if f["kind"] != "semantic-compound" and not f.get("shared_form") and not f.get("literal")], key=_rank)
+    lits = sorted([f for f in sem_fail if f.get("literal")], key=lambda f: (_rank(f), 0 if not f.get("assembleConstants") else 1))
+    lits = [f for f in lits if not f.get("assembleConstants")][:2] + [f for f in lits if f.get("assembleConstants")][:2]
     shared = sorted([f for f in sem_fail if f["kind"] != "semantic-compound" and f.get("shared_form")], key=_rank)
     comp = sorted([f for f in sem_fail if f["kind"] == "semantic-compound"], key=_rank)
-    for f in plain[:3] + shared[:2] + comp[:3]:
+    for f in plain[:3] + shared[:2] + lits + comp[:3]:
         if f["kind"] == "semantic-compound":
             ck.violation("compiled WideRatio with factor expressions %s (constants %s) on application arguments %s (factor values %s/%s) at v%d gave %s %s, expected %s%s"
                          % (f["factor_kinds"], f["factor_consts"], f["app_args"], f["ns"], f["ds"], f["version"], f["observed_verdict"], f["observed_logs"], f["expected"],
@@ -424,6 +515,8 @@ def main(argv):
             note += " [r = that ratio used as BOTH factors of WideRatio([r, r], [1]) -- one object, two places]"
         if f.get("shared_form") == "twice":
             note += " [the same WideRatio object logged in two statements]"
+        if f.get("literal"):
+            note += " [Int LITERAL factors, compileTeal(assembleConstants=%s), other constants in the program (value, uses): %s]" % (f["assembleConstants"], f["ambient_constants"])
         if f.get("compile_no") == 2:
             note += " [SECOND compilation of the same expression object; first was at v%d]" % f["first_version"]
         ck.violation("compiled WideRatio %s/%s at v%d gave %s %s, expected %s%s" % (f["ns"], f["ds"], f["version"], f["observed_verdict"], f["observed_logs"], f["expected"], note), f)
@@ -442,6 +535,8 @@ def main(argv):
              "semantic: real compileTeal output run on the extracted AVM for shapes 1..6 x 1..6 with boundary/near-2^128/small/random uint64 factors taken from application arguments; "
              "compound: the same with factor expressions drawn from {btoi(arg), arg+c, c+arg, arg*c, arg-c, arg/c, Txn.fee, If(arg>c,arg,c), Len(arg), Int c, nested WideRatio, scratch load} "
              "(a compound factor forced into every third-or-later position), versions 5..10, each factor's value/failure computed in exact integers; "
+             "literal: Int-literal factor lists with repetitions (adjacent equal literals at every position incl. 3rd-or-later and across the num/den boundary, shared Int objects) "
+             "inside programs with further repeated constants, compiled with assembleConstants=False and True, run on the AVM; "
              "recompile: every generated program OBJECT is compiled twice (second time at another version) and both outputs are run; "
              "shared: one WideRatio object (3..5 x 3..5 factors) used as both factors of an outer ratio and in two statements; "
              "a case is distinct by (shape, version, compilation number, factor kinds/constants, factor values); non-trivial = the constructor accepts the shape" % maxn,
